@@ -5,11 +5,15 @@ mod c01;
 mod c02;
 mod c03;
 mod faults;
+mod c07;
 mod c08;
 mod c09;
 mod c10;
 mod c11;
 mod c12;
+mod c18;
+mod lite;
+mod truth;
 mod xs;
 mod val;
 mod smoke;
@@ -55,11 +59,13 @@ fn main() {
             "C01" => c01::replay(&v),
             "C02" => c02::replay(&v),
             "C03" => c03::replay(&v),
+            "C07" => c07::replay(&v),
             "C08" => c08::replay(&v),
             "C09" => c09::replay(&v),
             "C10" => c10::replay(&v),
             "C11" => c11::replay(&v),
             "C12" => c12::replay(&v),
+            "C18" => c18::replay(&v),
             _ => {
                 eprintln!("no replay for {id}");
                 2
@@ -70,11 +76,13 @@ fn main() {
             "C01" => c01::run(tier),
             "C02" => c02::run(tier),
             "C03" => c03::run(tier),
+            "C07" => c07::run(tier),
             "C08" => c08::run(tier),
             "C09" => c09::run(tier),
             "C10" => c10::run(tier),
             "C11" => c11::run(tier),
             "C12" => c12::run(tier),
+            "C18" => c18::run(tier),
             "SMOKE" => smoke::run("/tmp/x/smoke"),
             _ => {
                 eprintln!("unknown property {id}");
